@@ -102,6 +102,7 @@ pub struct Ctx {
     pub inbound: VecDeque<u8>,
     pub io: [u64; 3],
     pub op_calls: u64,
+    pub faults: usize,
     pub watchdog: u64,
     pub tripped: bool,
     pub mismatch: Option<String>,
@@ -144,6 +145,27 @@ impl Ctx {
                 self.rec(json!({"e":"adv","to":vclock::now_ms(),"spin":true}));
             }
         }
+    }
+
+    /// The kind of the next injected transport fault: cycles through every kind a transport may
+    /// report (the kind is not logged: no listed property lets the client's reaction depend on it).
+    fn fault_kind(&mut self) -> ErrorKind {
+        const KINDS: [ErrorKind; 12] = [
+            ErrorKind::ConnectionReset,
+            ErrorKind::BrokenPipe,
+            ErrorKind::Interrupted,
+            ErrorKind::TimedOut,
+            ErrorKind::Other,
+            ErrorKind::ConnectionAborted,
+            ErrorKind::NotConnected,
+            ErrorKind::WriteZero,
+            ErrorKind::OutOfMemory,
+            ErrorKind::InvalidData,
+            ErrorKind::Unsupported,
+            ErrorKind::PermissionDenied,
+        ];
+        self.faults += 1;
+        KINDS[(self.faults - 1) % KINDS.len()]
     }
 
     fn count(&mut self, kind: usize) -> bool {
@@ -203,7 +225,7 @@ impl Read for SimIo {
                 }
                 IoDec::Err => {
                     ctx.rec(json!({"e":"rerr","want":want}));
-                    Poll::Ready(Err(ErrorKind::ConnectionReset))
+                    Poll::Ready(Err(ctx.fault_kind()))
                 }
             }
         })
@@ -245,7 +267,7 @@ impl Write for SimIo {
                 }
                 IoDec::Eof | IoDec::Err => {
                     ctx.rec(json!({"e":"werr","len":len}));
-                    Poll::Ready(Err(ErrorKind::BrokenPipe))
+                    Poll::Ready(Err(ctx.fault_kind()))
                 }
             }
         })
@@ -275,7 +297,7 @@ impl Write for SimIo {
                 }
                 IoDec::Eof | IoDec::Err => {
                     ctx.rec(json!({"e":"f","r":"err"}));
-                    Poll::Ready(Err(ErrorKind::BrokenPipe))
+                    Poll::Ready(Err(ctx.fault_kind()))
                 }
             }
         })
@@ -794,6 +816,7 @@ pub fn run_scenario(cfg: &Cfg, dir: Box<dyn Director>) -> RunResult {
         inbound: VecDeque::new(),
         io: [0; 3],
         op_calls: 0,
+        faults: 0,
         watchdog: cfg.watchdog,
         tripped: false,
         mismatch: None,
